@@ -310,6 +310,9 @@ def _rest(ck, repo):
         from . import c05
         c05._argument_table(ck, repo)
         c05._coerce_arguments(ck, repo)
+        # ... and the variable map those tables read: an omitted variable without default has *no* entry (C04.R2)
+        from . import c04
+        c04._coerce_variables(ck, repo)
 
 
 def _pick(expr, env, val, atoms) -> str:
